@@ -11,11 +11,36 @@
    C11_impl_covers_table     every entry of the guard table is exercised by at least one fact (the translator did
                              not silently lose a type).
 
-   Trusted: the translator (held-set computation from Go syntax, access-path aliasing, freshness), the documented
-   exemptions of the guard table, the Go memory model. The dynamic counterpart is scenario C11RACE run under the
-   race detector. *)
+   Trusted: the translator (held-set computation from Go syntax, access-path aliasing, freshness, which literals run
+   on another goroutine), the Go memory model, and the EXPLICIT remainder: the facts listed in
+   Model.LocksetBridge.trusted_table / local_trusted_table (fresh objects, owned / channel-synchronised values, the
+   documented exemptions) — everything else is covered by the bridge theorems below. The hand-over patterns behind
+   GChanSync / the Exclusive lock hand-off / ExGoOrdered have abstract counterparts (the C11_hb_ theorems), but the translator
+   emits no channel operations, so for the facts of those kinds the tie to the source remains the guard table's
+   argument. Worker.do's unlocked reads concurrent with LOCKED readers (read sharing) and sync.Once are not modelled.
+   The dynamic counterpart is scenario C11RACE run under the race detector.
+
+   THE BRIDGE between the two halves (Model/LocksetBridge.v, Proofs/LocksetBridge.v, Proofs/LocksetImpl.v):
+   C11_bridge_fact               guard_sat of an exemption-free guard  =>  action_ok of the translated access.
+   C11_library_programs_race_free  every program made of the library's own guarded accesses, each executed while
+                             holding what the translator saw held, has no race (any threads, any schedule).
+   C11_impl_all_sites_race_free  the concrete instance with one thread per bridged access of the whole library.
+   C11_guard_ok_split        what guard_ok accepts is bridged or carries an explicit trust kind.
+   C11_impl_trusted_remainder / _tight   the facts that are NOT bridged are exactly those of the explicit table
+                             Model.LocksetBridge.trusted_table, keyed by (function, struct, field, kind).
+   C11_impl_lock_paths_stable  the lock of every GMutex guard is reached through immutable fields only.
+   C11_impl_local_*          captured local variables (Buffer.cleanup's timer/broadcast, Exclusive.call's item/outcome,
+                             CombineContext's stops, WaitCond's ctx, ...) as locations, with their own guard table.
+   C11_impl_sync_callers_checked  the synchronous-caller assumption decided in Coq from generated data.
+   C11_hb_*                  the machine extended with ownership-carrying happens-before edges (channel send/receive,
+                             `go` with a lock hand-off): soundness, "published with a happens-before edge", the
+                             hand-over patterns of the library (GChanSync, lock hand-off, ExGoOrdered) and the bridge
+                             theorem over that machine (C11_library_hb_programs_race_free).
+   *)
 From Coq Require Import List String Bool.
-From BB Require Import Model.Lockset Proofs.Lockset Gen.ImplLocksets.
+From BB Require Import Model.Lockset Proofs.Lockset Model.LocksetBridge Model.LocksetData Gen.ImplLocksets.
+From BB Require Import Model.LocksetHB.
+From BB Require Proofs.LocksetBridge Proofs.LocksetHB Proofs.LocksetBridgeHB Proofs.LocksetImpl.
 Import ListNotations.
 
 Theorem C11_disciplined_no_race :
@@ -74,3 +99,305 @@ Print Assumptions C11_impl_covers_table.
 Example C11_impl_violations_none :
   map f_pos (filter (fun f => negb (guard_ok guard_table f)) impl_facts) = [].
 Proof. vm_compute; reflexivity. Qed.
+
+(* ------------------------------------------------------------------------------------------------------------ *)
+(* The bridge: the checker over the translator's facts establishes the abstract discipline                       *)
+(* ------------------------------------------------------------------------------------------------------------ *)
+
+(* One fact. If the guard g of the fact's field is exemption-free (g = core g) and abstract (mutex / atomic /
+   immutable) and the fact satisfies it, then the abstract access [tr_access o fa] (on any object o) is allowed by
+   the abstract discipline [action_ok] under exactly the abstract held set [tr_held o (f_held fa)] the translator
+   computed, with the abstract guard function [abs_guard lk] read off the same table. No freshness assumption. *)
+Theorem C11_bridge_fact :
+  forall (lk : glookup) (o : obj) (fa : fact) (g : guard),
+    lk (f_struct fa) (f_field fa) = Some g ->
+    g = core g -> core_is_abstract g = true ->
+    guard_sat g fa = true ->
+    action_ok alock aloc alock_eqb (abs_guard lk) (tr_held o (f_held fa)) (tr_access o fa) = true.
+Proof. exact Proofs.LocksetBridge.bridge_fact. Qed.
+Print Assumptions C11_bridge_fact.
+
+(* The same for guards that carry exemptions, as long as the fact does not NEED them ([bridged]: the guard with its
+   exemptions removed is satisfied), and for any held set covering the translated one. *)
+Theorem C11_bridge_action_ok :
+  forall (lk : glookup) (o : obj) (fa : fact) (h : list (alock * mode)),
+    bridged lk fa = true ->
+    held_covers h (tr_held o (f_held fa)) = true ->
+    action_ok alock aloc alock_eqb (abs_guard lk) h (tr_access o fa) = true.
+Proof. exact Proofs.LocksetBridge.bridge_action_ok. Qed.
+Print Assumptions C11_bridge_action_ok.
+
+(* "No unsynchronised conflicting access inside the library", for the bridged part of the CURRENT source: every
+   program made of the library's own guarded accesses (struct fields and captured locals: all_facts), on any objects,
+   with any lock operations in between, each access executed while the thread holds what the translator saw held at
+   that access ([consistent], computed by the machine's own held_after), has no data race — for any number of threads
+   and any schedule. all_lookup is guard_table extended by the captured-locals table. *)
+Theorem C11_library_programs_race_free :
+  forall progs : list (list pitem),
+    (forall p, In p progs ->
+       (forall o fa, In (PFact o fa) p ->
+                     In fa (filter (bridged Proofs.LocksetImpl.all_lookup) Proofs.LocksetImpl.all_facts))
+       /\ consistent [] p = true) ->
+    forall sched, ~ race alock aloc (run alock aloc alock_eqb (map tr_thread progs) sched).
+Proof. exact Proofs.LocksetImpl.impl_programs_race_free. Qed.
+Print Assumptions C11_library_programs_race_free.
+
+(* The hypotheses are satisfiable by every fact of the source (take the locks the translator saw, then access) ... *)
+Theorem C11_impl_sites_consistent :
+  forallb (fun fa => consistent [] (site_prog 0 fa)) Proofs.LocksetImpl.all_facts = true.
+Proof. vm_compute; reflexivity. Qed.
+Print Assumptions C11_impl_sites_consistent.
+
+(* ... so, concretely: one thread per bridged access of the whole library, ALL on the same object, race free. *)
+Theorem C11_impl_all_sites_race_free :
+  forall sched,
+    ~ race alock aloc
+        (run alock aloc alock_eqb
+             (map tr_thread (map (site_prog 0)
+                (filter (bridged Proofs.LocksetImpl.all_lookup) Proofs.LocksetImpl.all_facts))) sched).
+Proof. exact (Proofs.LocksetImpl.impl_all_sites_race_free C11_impl_sites_consistent). Qed.
+Print Assumptions C11_impl_all_sites_race_free.
+
+(* The bridged part is most of the library: at least two thirds of the field facts and of the captured-local facts. *)
+Theorem C11_impl_bridged_count :
+  let '((b, n), (bl, nl)) := Proofs.LocksetImpl.bridged_counts in
+  Nat.leb (2 * n) (3 * b) && Nat.leb (2 * nl) (3 * bl) && Nat.ltb 0 n && Nat.ltb 0 nl = true.
+Proof. vm_compute; reflexivity. Qed.
+Print Assumptions C11_impl_bridged_count.
+
+(* all_lookup agrees with each of the two tables on that table's own facts: the remainder theorems below speak
+   about the same [bridged] as the race-freedom theorems above. *)
+Theorem C11_impl_lookup_agree :
+  forallb (fun fa => Bool.eqb (bridged Proofs.LocksetImpl.all_lookup fa) (bridged (lookup guard_table) fa)) impl_facts
+  && forallb (fun fa => Bool.eqb (bridged Proofs.LocksetImpl.all_lookup fa) (bridged local_lookup fa)) impl_local_facts
+  = true.
+Proof. vm_compute; reflexivity. Qed.
+Print Assumptions C11_impl_lookup_agree.
+
+(* The discipline is needed: Channel.Commit's buffer accesses with the held set the translator reports once the
+   c.mutex.Lock()/Unlock() pair is deleted (empty) are not bridged, and that unlocked write races with Get's locked
+   read in the abstract machine. *)
+Theorem C11_unlocked_commit_not_bridged :
+  forallb (fun fa => negb (bridged Proofs.LocksetImpl.all_lookup (Proofs.LocksetImpl.strip_held fa)))
+          (filter (fun fa => String.eqb (f_fn fa) "Channel.Commit" && String.eqb (f_field fa) "buffer") impl_facts) = true.
+Proof. vm_compute; reflexivity. Qed.
+Print Assumptions C11_unlocked_commit_not_bridged.
+
+Theorem C11_unlocked_commit_refuted :
+  exists sched, race alock aloc (run alock aloc alock_eqb Proofs.LocksetImpl.commit_unlocked_vs_get sched).
+Proof. exact Proofs.LocksetImpl.commit_unlocked_races. Qed.
+Print Assumptions C11_unlocked_commit_refuted.
+
+(* ------------------------------------------------------------------------------------------------------------ *)
+(* The trusted remainder, explicit and checked                                                                   *)
+(* ------------------------------------------------------------------------------------------------------------ *)
+
+(* Whatever guard_ok accepts is either bridged (covered by the theorems above) or accepted by a NAMED non-abstract
+   clause: fresh object, GOwned, GChanSync, or one of the documented exemptions. *)
+Theorem C11_guard_ok_split :
+  forall (t : guard_tbl) (fa : fact),
+    guard_ok t fa = true ->
+    bridged (lookup t) fa = true \/ exists k, classify f_fn (lookup t) fa = Some k.
+Proof. exact Proofs.LocksetBridge.guard_ok_split. Qed.
+Print Assumptions C11_guard_ok_split.
+
+(* Every fact of the current source that is not bridged is listed, by (top-level function, struct, field, kind), in
+   the hand-written table Model.LocksetBridge.trusted_table. A new unguarded access — a new exemption use, a new
+   "fresh" write, a new owned/channel-synchronised field use — in a function/field combination that is not in that
+   table breaks this obligation (and it implies C11_impl_disciplined, see C11_remainder_implies_guard_ok). *)
+Theorem C11_impl_trusted_remainder :
+  remainder_ok f_fn (lookup guard_table) trusted_table impl_facts = true.
+Proof. vm_compute; reflexivity. Qed.
+Print Assumptions C11_impl_trusted_remainder.
+
+(* ... and the table lists nothing that the source does not need (no stale licence). *)
+Theorem C11_impl_trusted_table_tight :
+  table_tight f_fn (lookup guard_table) trusted_table impl_facts = true.
+Proof. vm_compute; reflexivity. Qed.
+Print Assumptions C11_impl_trusted_table_tight.
+
+Theorem C11_remainder_implies_guard_ok :
+  forall (t : guard_tbl) (tbl : list trusted_entry) (facts : list fact),
+    remainder_ok f_fn (lookup t) tbl facts = true -> forallb (guard_ok t) facts = true.
+Proof. exact Proofs.LocksetBridge.remainder_ok_guard_ok. Qed.
+Print Assumptions C11_remainder_implies_guard_ok.
+
+(* The abstract lock (object, struct, path) of a GMutex guard denotes one lock: the first component of the path is
+   either a mutex held by value (no table entry) or a GImmutable field (exclusiveItem.mutex, ChanPubSub.pongC). *)
+Theorem C11_impl_lock_paths_stable : lock_paths_stable guard_table = true.
+Proof. vm_compute; reflexivity. Qed.
+Print Assumptions C11_impl_lock_paths_stable.
+
+(* ------------------------------------------------------------------------------------------------------------ *)
+(* Captured local variables                                                                                      *)
+(* ------------------------------------------------------------------------------------------------------------ *)
+
+(* Every access to a local variable that is captured by a goroutine literal / escaping closure / method value obeys
+   Model.LocksetData.local_guard_table (default: written only before the first capture). *)
+Theorem C11_impl_local_disciplined : forallb local_guard_ok impl_local_facts = true.
+Proof. vm_compute; reflexivity. Qed.
+Print Assumptions C11_impl_local_disciplined.
+
+Theorem C11_local_guard_ok_split :
+  forall fa : fact,
+    local_guard_ok fa = true ->
+    bridged local_lookup fa = true \/ exists k, classify fn_lit local_lookup fa = Some k.
+Proof. exact Proofs.LocksetImpl.local_guard_ok_split. Qed.
+Print Assumptions C11_local_guard_ok_split.
+
+(* the trusted remainder of the captured locals, by (function literal, scope, variable, kind) *)
+Theorem C11_impl_local_trusted_remainder :
+  remainder_ok fn_lit local_lookup local_trusted_table impl_local_facts = true.
+Proof. vm_compute; reflexivity. Qed.
+Print Assumptions C11_impl_local_trusted_remainder.
+
+Theorem C11_impl_local_trusted_table_tight :
+  table_tight fn_lit local_lookup local_trusted_table impl_local_facts = true.
+Proof. vm_compute; reflexivity. Qed.
+Print Assumptions C11_impl_local_trusted_table_tight.
+
+(* every entry of the local guard table is exercised; its lock variables are captured locals checked as immutable *)
+Theorem C11_impl_local_table_covered : Proofs.LocksetImpl.local_table_covered = true.
+Proof. vm_compute; reflexivity. Qed.
+Print Assumptions C11_impl_local_table_covered.
+
+(* the list of captures and the list of local facts describe the same variables *)
+Theorem C11_impl_captures_consistent : Proofs.LocksetImpl.captures_consistent = true.
+Proof. vm_compute; reflexivity. Qed.
+Print Assumptions C11_impl_captures_consistent.
+
+(* ------------------------------------------------------------------------------------------------------------ *)
+(* The synchronous-caller assumption, decided here                                                               *)
+(* ------------------------------------------------------------------------------------------------------------ *)
+
+(* WaitCond's fn parameter is only called directly or nil-compared on WaitCond's own goroutine, WaitCond performs no
+   lock operation itself, and both library call sites hold the locker of the cond they pass, in write mode. (The
+   generated impl_sync_callers_ok of C11_impl_sync_callers is now DEFINED as this computation.) *)
+Theorem C11_impl_sync_callers_checked :
+  sync_callers_ok impl_sync_assumed impl_sync_uses impl_sync_sites = true.
+Proof. vm_compute; reflexivity. Qed.
+Print Assumptions C11_impl_sync_callers_checked.
+
+Theorem C11_impl_sync_callers_nonvacuous :
+  impl_sync_assumed <> [] /\ impl_sync_sites <> [] /\
+  forallb (fun s => String.prefix "literal " (ss_arg s)) impl_sync_sites = true.
+Proof. split; [discriminate|]. split; [discriminate|]. vm_compute; reflexivity. Qed.
+Print Assumptions C11_impl_sync_callers_nonvacuous.
+
+(* ------------------------------------------------------------------------------------------------------------ *)
+(* Happens-before edges that carry ownership (Model/LocksetHB.v)                                                 *)
+(* ------------------------------------------------------------------------------------------------------------ *)
+
+(* The lockset theorem for the machine extended with HSend c / HRecv c (a channel send or close / the matching
+   receive; `go` with a hand-over is a send on the child's start channel): the token [pay c] travels with the message.
+   Disciplined = every access under its location's lock or token in an adequate mode, every send by a thread that
+   holds the channel's token in write mode. Any number of threads, any programs, every schedule. *)
+Theorem C11_hb_disciplined_no_race :
+  forall (lock loc chan : Type) (lock_eqb : lock -> lock -> bool) (chan_eqb : chan -> chan -> bool),
+    (forall a b, lock_eqb a b = true <-> a = b) ->
+    (forall a b, chan_eqb a b = true <-> a = b) ->
+    forall (pay : chan -> lock) (g : loc -> lguard lock) (s0 : hstate lock loc chan),
+      Proofs.LocksetHB.h_inv lock loc chan lock_eqb pay s0 ->
+      h_disciplined lock loc chan lock_eqb pay g s0 = true ->
+      forall sched, ~ Proofs.LocksetHB.h_race lock loc chan (h_run lock loc chan lock_eqb chan_eqb pay s0 sched).
+Proof. exact Proofs.LocksetHB.h_disciplined_no_race. Qed.
+Print Assumptions C11_hb_disciplined_no_race.
+
+(* "Every value handed to a consumer, subscriber or caller is published with a happens-before edge from the goroutine
+   that supplied it": in every reachable state of a disciplined system the thread about to access a token-guarded
+   location holds the token, the token is not in flight, and no other thread holds it (in any mode if the access is a
+   write, in write mode if it is a read). The supplier gave the token up by its send — after its own accesses, in
+   program order — and cannot touch the value again before receiving the token back. *)
+Theorem C11_hb_access_exclusive :
+  forall (lock loc chan : Type) (lock_eqb : lock -> lock -> bool) (chan_eqb : chan -> chan -> bool),
+    (forall a b, lock_eqb a b = true <-> a = b) ->
+    (forall a b, chan_eqb a b = true <-> a = b) ->
+    forall (pay : chan -> lock) (g : loc -> lguard lock) (s0 : hstate lock loc chan),
+      Proofs.LocksetHB.h_inv lock loc chan lock_eqb pay s0 ->
+      h_disciplined lock loc chan lock_eqb pay g s0 = true ->
+      forall sched i ti x k p l,
+        nth_error (hs_threads (h_run lock loc chan lock_eqb chan_eqb pay s0 sched)) i = Some ti ->
+        ht_prog ti = HAccess x k :: p -> g x = LMutex l ->
+        holds_for lock lock_eqb (ht_held ti) l k = true /\
+        in_flight lock chan lock_eqb pay (hs_flight (h_run lock loc chan lock_eqb chan_eqb pay s0 sched)) l = false /\
+        forall j tj, j <> i -> nth_error (hs_threads (h_run lock loc chan lock_eqb chan_eqb pay s0 sched)) j = Some tj ->
+                     (if rw_is_w k then holds_any lock lock_eqb (ht_held tj) l
+                      else holds_w lock lock_eqb (ht_held tj) l) = false.
+Proof. exact Proofs.LocksetHB.h_access_exclusive. Qed.
+Print Assumptions C11_hb_access_exclusive.
+
+(* ... and a token is only ever obtained from a message that a send put in flight: along every schedule from a state
+   with nothing in flight, the receives executed on a channel never outnumber the sends executed on it. *)
+Theorem C11_hb_recv_after_send :
+  forall (lock loc chan : Type) (lock_eqb : lock -> lock -> bool) (chan_eqb : chan -> chan -> bool),
+    (forall a b, chan_eqb a b = true <-> a = b) ->
+    forall (pay : chan -> lock) (sched : list nat) (s : hstate lock loc chan) (c : chan),
+      hs_flight s = [] ->
+      Proofs.LocksetHB.recvs chan chan_eqb c (Proofs.LocksetHB.h_trace lock loc chan lock_eqb chan_eqb pay s sched)
+      <= Proofs.LocksetHB.sends chan chan_eqb c (Proofs.LocksetHB.h_trace lock loc chan lock_eqb chan_eqb pay s sched).
+Proof. exact Proofs.LocksetHB.h_recv_after_send. Qed.
+Print Assumptions C11_hb_recv_after_send.
+
+(* The abstract counterparts of the guard table's non-mutex clauses (programs in Proofs/LocksetHB.v):
+   GChanSync — a result filled by one goroutine and sent on a channel, read by the receiver; *)
+Theorem C11_hb_chansync_no_race :
+  forall sched, ~ Proofs.LocksetHB.h_race nat nat nat
+                    (h_run nat nat nat Nat.eqb Nat.eqb Proofs.LocksetHB.hb_pay Proofs.LocksetHB.chansync sched).
+Proof. exact Proofs.LocksetHB.chansync_no_race. Qed.
+Print Assumptions C11_hb_chansync_no_race.
+
+(* the lock hand-off of gostmt_ok — a goroutine that starts owning the mutex its creator locked; *)
+Theorem C11_hb_handoff_no_race :
+  forall sched, ~ Proofs.LocksetHB.h_race nat nat nat
+                    (h_run nat nat nat Nat.eqb Nat.eqb Proofs.LocksetHB.hb_pay Proofs.LocksetHB.handoff sched).
+Proof. exact Proofs.LocksetHB.handoff_no_race. Qed.
+Print Assumptions C11_hb_handoff_no_race.
+
+(* ExGoOrdered — written before `go`, read by the new goroutine, rewritten only after its completion signal. *)
+Theorem C11_hb_goordered_no_race :
+  forall sched, ~ Proofs.LocksetHB.h_race nat nat nat
+                    (h_run nat nat nat Nat.eqb Nat.eqb Proofs.LocksetHB.hb_pay Proofs.LocksetHB.goordered sched).
+Proof. exact Proofs.LocksetHB.goordered_no_race. Qed.
+Print Assumptions C11_hb_goordered_no_race.
+
+(* The edges are needed: reading the result without receiving it, or rewriting without waiting for the completion
+   signal, is rejected by the discipline and races in some schedule. *)
+Theorem C11_hb_missing_edge_refuted :
+  (exists sched, Proofs.LocksetHB.h_race nat nat nat
+                   (h_run nat nat nat Nat.eqb Nat.eqb Proofs.LocksetHB.hb_pay Proofs.LocksetHB.chansync_bad sched))
+  /\ (exists sched, Proofs.LocksetHB.h_race nat nat nat
+                      (h_run nat nat nat Nat.eqb Nat.eqb Proofs.LocksetHB.hb_pay Proofs.LocksetHB.goordered_bad sched)).
+Proof. exact (conj Proofs.LocksetHB.chansync_bad_races Proofs.LocksetHB.goordered_bad_races). Qed.
+Print Assumptions C11_hb_missing_edge_refuted.
+
+(* The bridge theorem over that machine: programs of the library's own bridged accesses, lock operations AND
+   hand-overs (any assignment hpay of tokens to channels), each access made while holding what the translator saw
+   held, each hand-over made by the owner of the token: no race, any number of threads, any schedule. *)
+Theorem C11_library_hb_programs_race_free :
+  forall (hpay : nat -> alock) (progs : list (list hitem)),
+    (forall p, In p progs ->
+       (forall o fa, In (HItem (PFact o fa)) p ->
+                     In fa (filter (bridged Proofs.LocksetImpl.all_lookup) Proofs.LocksetImpl.all_facts))
+       /\ h_consistent hpay [] p = true) ->
+    forall sched,
+      ~ Proofs.LocksetHB.h_race alock aloc nat (h_run alock aloc nat alock_eqb Nat.eqb hpay (tr_hstate progs) sched).
+Proof. exact Proofs.LocksetImpl.impl_hb_programs_race_free. Qed.
+Print Assumptions C11_library_hb_programs_race_free.
+
+(* Its instance for the documented lock hand-off of exclusive.go, built from the CURRENT facts of Exclusive.call
+   (Proofs.LocksetImpl.exclusive_handoff_progs: two callers and the two goroutines they start, on one item): the
+   facts are bridged and the programs consistent ... *)
+Theorem C11_exclusive_handoff_ok : Proofs.LocksetImpl.exclusive_handoff_ok = true.
+Proof. vm_compute; reflexivity. Qed.
+Print Assumptions C11_exclusive_handoff_ok.
+
+(* ... hence race free in every schedule, the goroutine's accesses being covered by the lock it INHERITS. *)
+Theorem C11_exclusive_handoff_race_free :
+  match Proofs.LocksetImpl.exclusive_handoff_progs with
+  | Some progs =>
+      forall sched, ~ Proofs.LocksetHB.h_race alock aloc nat
+                        (h_run alock aloc nat alock_eqb Nat.eqb Proofs.LocksetImpl.item_mutex_pay (tr_hstate progs) sched)
+  | None => True
+  end.
+Proof. exact (Proofs.LocksetImpl.exclusive_handoff_race_free C11_exclusive_handoff_ok). Qed.
+Print Assumptions C11_exclusive_handoff_race_free.
